@@ -33,11 +33,11 @@ def signature(t_id, events, off, reason):
 
 
 def run(ctx, n=None, nbig=None, corrupt=None):
-    n = n if n is not None else (40 if ctx.quick else 1200)
+    n = n if n is not None else (60 if ctx.quick else 1200)
     nbig = nbig if nbig is not None else (1 if ctx.quick else 12)
     cases = os.path.join(ctx.work, "cases.ndjson")
     _drive(ctx, "gen", n, nbig, cases)
-    r = core.tlc(SPEC, "BPFProbe", "BPFProbe.cfg", workers=1, timeout=900 if ctx.quick else 3000,
+    r = core.tlc(SPEC, "BPFProbe", "BPFProbe.cfg" if ctx.quick else "BPFProbe_thorough.cfg", workers=1, timeout=900 if ctx.quick else 3000,
                  extra_files={"trace.ndjson": cases}, heap="6g", stack="256m")
     if r.violated and r.violated != "deadlock":
         raise HarnessError("BPFProbe failed: %s\n%s" % (r.violated, r.out[-2000:]))
@@ -90,8 +90,7 @@ def run(ctx, n=None, nbig=None, corrupt=None):
     e0 = evs[min(1, len(evs) - 1)]
     ctx.sample({"case": e0["case"], "cfg": e0["cfg"], "first_results": e0.get("results", [])[:2]}, limit=3)
     ctx.assumptions += ["harness/ebpfvm interprets the emitted instructions faithfully (helpers: map_lookup_elem on the state "
-                        "and IP-set maps with the real key encoders and LPM semantics; tail_call); kernel verifier/JIT out of scope",
-                        "named-port members whose protocol the BPF IP-set encoder does not know (SCTP) are absent from the BPF map"]
+                        "and IP-set maps with the real key encoders and LPM semantics; tail_call); kernel verifier/JIT out of scope"]
     return stats
 
 
